@@ -47,7 +47,8 @@ theorem entry_plain {pc : PC} (h : pc.entry = true) : pc.plain = true := by
 /-- `startOps` on a plain program: no result is added, the thread sits at an entry pc, stays select-free -/
 theorem startOps_plain (th : Thread) (ops : List Op) (h : ops.all Op.plain = true) :
     (startOps th ops).res = th.res ∧ (startOps th ops).pc.entry = true ∧ (startOps th ops).sel = none ∧
-    (startOps th ops).ops.all Op.plain = true ∧ (startOps th ops).waiting = th.waiting := by
+    (startOps th ops).ops.all Op.plain = true ∧ (startOps th ops).waiting = th.waiting ∧
+    (∀ q, (startOps th ops).pc = .at q → (startOps th ops).rv = [0]) := by
   cases ops with
   | nil => simp [startOps, PC.entry]
   | cons op rest =>
@@ -60,7 +61,8 @@ theorem startOps_plain (th : Thread) (ops : List Op) (h : ops.all Op.plain = tru
 
 theorem finishOp_plain (th : Thread) (r : Res) (h : th.ops.all Op.plain = true) :
     (finishOp th r).res = th.res ++ [r] ∧ (finishOp th r).pc.entry = true ∧ (finishOp th r).sel = none ∧
-    (finishOp th r).ops.all Op.plain = true ∧ (finishOp th r).waiting = th.waiting := by
+    (finishOp th r).ops.all Op.plain = true ∧ (finishOp th r).waiting = th.waiting ∧
+    (∀ q, (finishOp th r).pc = .at q → (finishOp th r).rv = [0]) := by
   unfold finishOp
   exact startOps_plain _ _ h
 
@@ -73,7 +75,8 @@ def resOf (th : Thread) : Ret → Res
 
 theorem onRet_plain (th : Thread) (r : Ret) (hs : th.sel = none) (h : th.ops.all Op.plain = true) :
     (onRet th r).res = th.res ++ [resOf th r] ∧ (onRet th r).pc.entry = true ∧ (onRet th r).sel = none ∧
-    (onRet th r).ops.all Op.plain = true ∧ (onRet th r).waiting = th.waiting := by
+    (onRet th r).ops.all Op.plain = true ∧ (onRet th r).waiting = th.waiting ∧
+    (∀ q, (onRet th r).pc = .at q → (onRet th r).rv = [0]) := by
   unfold onRet
   rw [hs]
   cases r <;> exact finishOp_plain _ _ h
@@ -177,7 +180,7 @@ theorem own_setOwner_none (s : State) (c c' : Cid) (h : s.own c' = none) : (s.se
 /-- the acting thread after a return `r` (record `th` before, receive variables `rv1` after the deliver) -/
 def RetAfter (th th' : Thread) (rv1 : List Val) (r : Ret) : Prop :=
   th'.res = th.res ++ [resOf { th with rv := rv1 } r] ∧ th'.pc.entry = true ∧ th'.sel = none ∧
-    th'.ops.all Op.plain = true
+    th'.ops.all Op.plain = true ∧ (∀ q, th'.pc = .at q → th'.rv = [0])
 
 /-- the acting thread after its step, by the way the critical section ended -/
 def SelfAfter (th th' : Thread) (c : Cid) (rv1 : List Val) : Out → Prop
@@ -269,8 +272,8 @@ theorem plain_exec (s : State) (t : Tid) (p : Point) (ht : t < s.threads.length)
     rw [thread_setThread_self _ _ _ hlx]
     have hselx : (x.thread t).sel = none := by rw [hx.sel]; exact hsel2
     have hopsx : (x.thread t).ops.all Op.plain = true := by rw [hx.ops]; exact hops2
-    obtain ⟨h1, h2, h3, h4, _⟩ := onRet_plain (x.thread t) ret hselx hopsx
-    refine ⟨?_, h2, h3, h4⟩
+    obtain ⟨h1, h2, h3, h4, _, h6⟩ := onRet_plain (x.thread t) ret hselx hopsx
+    refine ⟨?_, h2, h3, h4, h6⟩
     rw [h1, hx.res, hth2]
     congr 2
     cases ret <;> simp [resOf, hx.rv, hth2]
@@ -521,7 +524,7 @@ theorem body_hist_pop (p : Point) (t : Tid) (ch : Chan) (bc : Bool) (c' : Cid) (
     (h : (body p t ch).out = .notify (.finish bc (.ret (.recv c' ok)))) :
     c' = p.chan ∧ ok = true ∧ ch.cap ≠ 0 ∧ (body p t ch).ch.recvBy = ch.recvBy ++ [(t, ch.front)] ∧
     (body p t ch).deliver = some (⟨t, 0⟩, ch.front) ∧ (body p t ch).ch.sentBy = ch.sentBy ∧
-    (body p t ch).ch.recvseq = ch.recvseq ∧ p.secondPhase2 = none ∧ (body p t ch).ch.getp = ch.getp ∨ ch.cap ≠ 0 := by
+    (body p t ch).ch.recvseq = ch.recvseq ∧ p.secondPhase2 = none := by
   cases p <;> simp only [body] at h ⊢
   case sendLock c v => (try unfold sendLoop at h); (try unfold sendLoop); (try simp only [Chan.handOff] at h ⊢); (repeat' (first | split at h | split)); all_goals (try simp_all [Point.plain]); all_goals (try subst_vars); all_goals (try simp_all [Chan.push, Chan.pop, Chan.handOff, Chan.bump, Chan.front, Point.plain, Point.chan, Point.secondPhase2, Out.isArm, Out.commits, Ret.isRecvOn, hasRecv, noSendRecv])
   case sendWaitU c v => (try unfold sendLoop at h); (try unfold sendLoop); (try simp only [Chan.handOff] at h ⊢); (repeat' (first | split at h | split)); all_goals (try simp_all [Point.plain]); all_goals (try subst_vars); all_goals (try simp_all [Chan.push, Chan.pop, Chan.handOff, Chan.bump, Chan.front, Point.plain, Point.chan, Point.secondPhase2, Out.isArm, Out.commits, Ret.isRecvOn, hasRecv, noSendRecv])
@@ -633,7 +636,7 @@ theorem exec_plainInv {s : State} {t : Tid} (h : PlainInv s) (hr : runnable s t 
             by rw [e1]; exact hb q t _ hpl (Or.inl hout)⟩
         | unlock r =>
           rw [hout] at hself
-          obtain ⟨_, e2, e3, e4⟩ := hself
+          obtain ⟨_, e2, e3, e4, _⟩ := hself
           exact ⟨e3, e4, entry_plain e2⟩
         | panic =>
           rw [hout] at hself
@@ -649,7 +652,7 @@ theorem exec_plainInv {s : State} {t : Tid} (h : PlainInv s) (hr : runnable s t 
           | finish bc n =>
             cases n with
             | ret r =>
-              obtain ⟨_, e2, e3, e4⟩ := hself
+              obtain ⟨_, e2, e3, e4, _⟩ := hself
               exact ⟨e3, e4, entry_plain e2⟩
             | recv2 b seq =>
               obtain ⟨e1, _, _, e5, e6⟩ := hself
